@@ -144,6 +144,23 @@ class _Async:
         return payload
 
 
+class _Ready:
+    def __init__(self, value):
+        self._v = value
+
+    def get(self, timeout=None):
+        return self._v
+
+    def wait(self, timeout=None):
+        pass
+
+    def ready(self):
+        return True
+
+    def successful(self):
+        return True
+
+
 class VirtualPool:
     """Drop-in for multiprocessing.Pool(processes=W) as used by the batch converter (apply_async + get).
     `assignment` maps task index -> worker index (a restricted growth string from set_partitions)."""
@@ -158,6 +175,50 @@ class VirtualPool:
     def apply_async(self, func, args=()):
         self.tasks.append((func, tuple(args)))
         return _Async(self, len(self.tasks) - 1)
+
+    # -- the map family, with multiprocessing.Pool's chunking rules (Pool._map_async / MapResult) -------------------
+    def _map(self, func, iterable, chunksize, star):
+        items = list(iterable)
+        if chunksize is None:
+            chunksize, extra = divmod(len(items), max(1, (self.processes or os.cpu_count() or 1)) * 4)
+            if extra:
+                chunksize += 1
+        if len(items) == 0:
+            chunksize = 0
+        if chunksize <= 0:
+            # Pool._get_tasks yields no batch and MapResult is born ready: a list of None, nothing is executed
+            return [None] * len(items)
+        first = len(self.tasks)
+        for it in items:
+            self.tasks.append((func, tuple(it) if star else (it,)))
+        self.results = None
+        self._run_all()
+        return [self._value(i) for i in range(first, first + len(items))]
+
+    def _value(self, i):
+        status, payload = self.results[i]
+        if status == 'exc':
+            raise payload
+        return payload
+
+    def map(self, func, iterable, chunksize=None):
+        return self._map(func, iterable, chunksize, False)
+
+    def starmap(self, func, iterable, chunksize=None):
+        return self._map(func, iterable, chunksize, True)
+
+    def imap(self, func, iterable, chunksize=1):
+        if chunksize < 1:
+            raise ValueError('Chunksize must be 1+, not {0:n}'.format(chunksize))
+        return iter(self._map(func, iterable, chunksize, False))
+
+    imap_unordered = imap
+
+    def map_async(self, func, iterable, chunksize=None):
+        return _Ready(self._map(func, iterable, chunksize, False))
+
+    def starmap_async(self, func, iterable, chunksize=None):
+        return _Ready(self._map(func, iterable, chunksize, True))
 
     def _run_all(self):
         if self.results is not None:
